@@ -314,8 +314,12 @@ def run_forced(w, res, lines, pending, r, thorough):
         else:
             # obtain the real thunk + callback chain of the step, then force the core
             w.force('running', 'active', None, False, True)
-            {'load': w.fsm.load, 'reload': w.fsm.reload, 'archive': w.fsm.archive,
-             'navel': w.fsm.navel_gaze}[op[1]]()
+            w.farm.insights = {}
+            w._guarded({'load': w.fsm.load, 'reload': w.fsm.reload, 'archive': w.fsm.archive,
+                        'navel': w.fsm.navel_gaze}[op[1]])
+            if not w.life():
+                res.count('forced:done:no-step-started')   # the callback did not defer its step (changed code)
+                continue
             w.force(*core)
             o = w.ev_complete(0, op[2], forced=True)
             line = ['fsm', 'done', st, tr, pr, oa, ar, op[1], op[2]]
@@ -558,8 +562,9 @@ def _replay(rep, res):
             w._end('trigger', forced=True)
         else:
             w.force('running', 'active', None, False, True)
-            {'load': w.fsm.load, 'reload': w.fsm.reload, 'archive': w.fsm.archive,
-             'navel': w.fsm.navel_gaze}[op[1]]()
+            w.farm.insights = {}
+            w._guarded({'load': w.fsm.load, 'reload': w.fsm.reload, 'archive': w.fsm.archive,
+                        'navel': w.fsm.navel_gaze}[op[1]])
             w.force(*core)
             w.ev_complete(0, op[2], forced=True)
         for sig, what in w.violations:
